@@ -31,6 +31,7 @@ OBLIGATIONS = [
     "Grog.C04.terminates",
     "Grog.C04.run_length_bounded",
     "Grog.C04.can_always_finish",
+    "Grog.C04.failure_always_completes",
     "Grog.C04.completions_cover",
     "Grog.C04.walk_return_enabled",
     "Grog.C04.errchan_no_deadlock",
